@@ -49,6 +49,7 @@ def interrupt_first_order(run, tier):
     for i in range(n):
         p = po.sample_program(rnd, i, finite_share=0.5); impl.append(p)
         progs.append((po.render(p, list(range(len(p["impls"]))), False, False), po.OPEN_GOALS[:len(po.OPEN_CONJ)], i))
+        cyc = getattr(interrupt_first_order, "_cyc", {}); cyc[i] = po.cyclic(p["impls"]); interrupt_first_order._cyc = cyc
     for p in pm.sample_programs(n // 2, rnd, False):
         if pm.co_generic(p): continue
         progs.append((pm.render_mini(p), [pm.GOALS[i - 1] for i in pm.OPEN_GOALS], None))
@@ -76,10 +77,10 @@ def interrupt_first_order(run, tier):
             base = {"solver": sname, "src": "first-order"}
             if full.get("error"):
                 if str(full["error"]).startswith("lowering"): raise ToolError("program does not lower: %s: %s" % (text, full["error"]))
-                run.case([text, sname]); run.violation(dict(base, what="abort-or-hang"), {"program": text, "solver": solver, "observed": full}); continue
+                run.case([text, sname]); run.violation(dict(base, what="abort-or-hang", rec_cyclic=(sname != "slg" and pid is not None and interrupt_first_order._cyc.get(pid, False))), {"program": text, "solver": solver, "observed": full}); continue
             for k, (job, o) in enumerate(runs, 1):
                 if o.get("error"):
-                    run.case([text, k, sname]); run.violation(dict(base, what="abort-or-hang", op="limited"), {"program": text, "solver": solver, "stop_at": k, "observed": o}); continue
+                    run.case([text, k, sname]); run.violation(dict(base, what="abort-or-hang", op="limited", rec_cyclic=(sname != "slg" and pid is not None and interrupt_first_order._cyc.get(pid, False))), {"program": text, "solver": solver, "stop_at": k, "observed": o}); continue
                 for gi, g in enumerate(goals):
                     f, r, after = full["results"][gi], o["results"][2 * gi], o["results"][2 * gi + 1]
                     interrupted = r.get("cb", 0) >= k
